@@ -10,7 +10,10 @@ LEVEL_TEXT = ("Descriptors.tla builds SRT stream ids in the two documented synta
 LEVEL_NOTE = ("bounded value tables (delimiter look-alikes, empty values, '=' ',' ':' '#!::' inside values); Link credentials: "
               "all strings of length <= 3 (thorough 4) over {a \" \\ ; = < > space}; ASCII only; left open and only "
               "compared with the code-shaped expectation: '#feedbackplay' suffix, standard syntax without m, malformed ids, "
-              "empty Link user name, Bearer values with >= 2 colons, several Authorization headers, letter case of schemes; "
+              "empty Link user name, Bearer values with >= 2 colons, letter case of schemes; several Authorization values "
+              "(all pairs and triples of 7 value kinds + random ones) are judged: the result must be the yield of one "
+              "value, of the Bearer one when a Basic and a Bearer value are both present; which of two values of the same "
+              "scheme counts is open; "
               "base64 and the RTSP header grammar (gortsplib) are trusted")
 TECHNIQUE = "TLC function table replayed on the real code + TLC trace validation of random records"
 
@@ -41,7 +44,7 @@ def run(ctx):
     cases = []
     for c in r.tagged("CASE"):
         cases.append({"id": len(cases), "fam": c["fam"], "in": case_in(c), "exp": c["exp"], "l1": c["l1"],
-                      "decided": c["decided"], "dev": c.get("dev", "")})
+                      "decided": c["decided"], "dev": c.get("dev", ""), "acc": c.get("acc"), "bare": c.get("bare")})
     lap("tlc_gen")
     if len(cases) < 8000:
         raise vf.Infra("generator produced only %d cases" % len(cases))
@@ -59,7 +62,7 @@ def run(ctx):
         raw += vf.read_ndjson(tf)
     lap("go_replay_and_trace")
 
-    ndrift = nopen = 0
+    ndrift = nopen = nmulti = 0
     byfam = {}
     bycause = {}
     for c in cases:
@@ -79,6 +82,16 @@ def run(ctx):
         if not c["decided"]:
             nopen += 1
             continue
+        if c["acc"] is not None:
+            # several Authorization values: the statement admits the yield of one of them (see Descriptors.tla)
+            nmulti += 1
+            if view not in c["acc"]:
+                cz = "BearerDisplacedByBasic" if view in c["bare"] else "none"
+                bycause[cz] = bycause.get(cz, 0) + 1
+                ctx.violation({"fam": c["fam"], "in": c["in"], "admitted": c["acc"], "obs": view, "cause": cz},
+                              "Authorization values %s (in this order): the statement admits %s, real code gave %s "
+                              "[cause: %s]" % (o.get("values"), c["acc"], view, cz))
+            continue
         if view != c["exp"]:
             l1view = {k: v for k, v in c["l1"].items() if k != "wire"}
             cz = c["dev"] if (c["dev"] and view == l1view) else "none"
@@ -90,6 +103,7 @@ def run(ctx):
     ctx.set("cases_enumerated", len(cases))
     ctx.set("cases_by_family", byfam)
     ctx.set("cases_left_open", nopen)
+    ctx.set("cases_with_several_authorization_values_judged", nmulti)
     ctx.set("exhaustive", True)
     for fam in ("srt", "link"):
         xs = [c for c in cases if c["fam"] == fam and c["decided"]]
@@ -101,7 +115,8 @@ def run(ctx):
             "link": ("fam", "url", "user", "cred", "wire", "got"),
             "http": ("fam", "kind", "user", "pass", "token", "got"),
             "rtsp": ("fam", "kind", "user", "pass", "token", "got")}
-    recs = [{k: x[k] for k in keep[x["fam"]]} for x in raw]
+    recs = [({k: x[k] for k in ("fam", "kind", "hs", "got")} if x.get("kind") == "multi"
+             else {k: x[k] for k in keep[x["fam"]]}) for x in raw]
     tvopen = 0
     chunk = 20000
     for i in range(0, len(recs), chunk):
